@@ -867,6 +867,44 @@ func runC16(c *h.Ctx) {
 			}
 		}
 	}
+	// precision and scale are integers, however they are spelled in the path:
+	// hexadecimal, octal, binary, with digit separators
+	{
+		run := func(ptxt string, doc any, silent bool) *h.Out {
+			p := cachedPath(ptxt)
+			if p == nil {
+				c.Count("gen.unparsable", 1)
+				return nil
+			}
+			c.Eval(1)
+			return h.Call("query", p, doc, h.Opts{Silent: silent})
+		}
+		for _, sp := range [][2]string{{"6,2", "0x6,2"}, {"6,2", "6,0b10"}, {"10,2", "1_0,0x2"}, {"5,-2", "0x5,-0x2"}, {"8,3", "0o10,3"}, {"10,2", "0xA,0o2"}, {"10,2", "0b1010,2"}, {"38,10", "0x26,0xa"}, {"4,0", "4,0x0"},
+			{"16,8", "0x1_0,0b1_000"}, {"1000,2", "0x3E8,2"}, {"1001,2", "0x3E9,2"}, {"5,1000", "5,0x3e8"}, {"5,-1001", "5,-0x3E9"}, {"2147483648,1", "0x80000000,1"}, {"12", "0xC"}, {"12", "1_2"}, {"3", "0b11"}} {
+			idx++
+			if !c.Mine(idx) {
+				continue
+			}
+			for _, in := range []string{"1234.5", "12.345", "99.95", "-7.25", "0.5", "123456.789", "15", "-0.04", "1500", "\"12.5\""} {
+				for _, useNum := range []bool{false, true} {
+					for _, silent := range []bool{false, true} {
+						x := h.Decode(in, useNum)
+						od := run("$.decimal("+sp[0]+")", x, silent)
+						oa := run("$.decimal("+sp[1]+")", x, silent)
+						if od == nil || oa == nil || od.Class == h.Panic || oa.Class == h.Panic {
+							continue
+						}
+						cs := h.Case{Kind: "exec", Path: "$.decimal(" + sp[1] + ")", Doc: in, UseNum: useNum, Silent: silent}
+						if od.Class != oa.Class || od.Class == h.OK && h.CanonListTyped(od.Items) != h.CanonListTyped(oa.Items) || od.Class != h.OK && od.ErrText() != oa.ErrText() {
+							c.Violate("decimal.args", h.F("kind", "spelling"), fmt.Sprintf("Query(%s) on %s = %s, but with the same arguments in decimal digits, $.decimal(%s) = %s", cs.Path, in, oa.Summary(), sp[0], od.Summary()), cs)
+						} else {
+							c.Held("decimal.args")
+						}
+					}
+				}
+			}
+		}
+	}
 	// powers of ten: 10^k has k+1 digits - it does not fit p = k, it fits p = k+1
 	for k := 0; k <= 22; k++ {
 		idx++
